@@ -55,8 +55,24 @@ static std::unique_ptr<Mesh> gen_smooth_int_mesh(Rng &r, GenInfo &gi) {
   for (int i = 0; i < m->num_attributes(); i++) { gi.uids.push_back(m->attribute(i)->unique_id()); gi.unquantized_uids.push_back(m->attribute(i)->unique_id()); }
   return m;
 }
+// flavor 5: closed surface of genus 1 (w x h grid wrapped both ways) with its faces in random order: the Edgebreaker traversal then
+// needs topology split events, sometimes two for one symbol
+static std::unique_ptr<Mesh> gen_torus_mesh(Rng &r, GenInfo &gi) {
+  int w = (int)r.range(3, 6), h = (int)r.range(3, 6); std::vector<std::array<int, 3>> faces; auto id = [&](int x, int y) { return (y % h) * w + (x % w); };
+  for (int y = 0; y < h; y++) for (int x = 0; x < w; x++) { faces.push_back({id(x, y), id(x + 1, y), id(x + 1, y + 1)}); faces.push_back({id(x, y), id(x + 1, y + 1), id(x, y + 1)}); }
+  for (int i = (int)faces.size() - 1; i > 0; i--) std::swap(faces[i], faces[r.below(i + 1)]);
+  if (r.chance(30)) faces.resize(faces.size() - 1 - r.below(3));   // sometimes with a small hole
+  TriangleSoupMeshBuilder mb; mb.Start((int)faces.size()); int pos = mb.AddAttribute(GeometryAttribute::POSITION, 3, DT_FLOAT32); int gen = r.chance(50) ? mb.AddAttribute(GeometryAttribute::GENERIC, 1, DT_UINT8) : -1;
+  auto P = [&](int v, float *o) { float a = 6.2831853f * (float)(v % w) / (float)w, b = 6.2831853f * (float)(v / w) / (float)h; o[0] = (3.f + std::cos(b)) * std::cos(a); o[1] = (3.f + std::cos(b)) * std::sin(a); o[2] = std::sin(b); };
+  for (size_t f = 0; f < faces.size(); f++) { float a[3], b[3], c[3]; P(faces[f][0], a); P(faces[f][1], b); P(faces[f][2], c); mb.SetAttributeValuesForFace(pos, FaceIndex((uint32_t)f), a, b, c);
+    if (gen >= 0) { uint8_t v = (uint8_t)(f % 3); mb.SetPerFaceAttributeValueForFace(gen, FaceIndex((uint32_t)f), &v); } }
+  auto m = mb.Finalize(); if (!m) return nullptr;
+  for (int i = 0; i < m->num_attributes(); i++) { gi.uids.push_back(m->attribute(i)->unique_id()); if (m->attribute(i)->data_type() != DT_FLOAT32) gi.unquantized_uids.push_back(m->attribute(i)->unique_id()); }
+  return m;
+}
 static std::unique_ptr<Mesh> gen_mesh(Rng &r, int flavor, GenInfo &gi) {
   if (flavor == 4) return gen_smooth_int_mesh(r, gi);
+  if (flavor == 5) return gen_torus_mesh(r, gi);
   // flavor 3: "curtain" - (x,y) from the column only, z from the row only: all faces vertical after quantization (integer geometric normals with z == 0)
   const bool curtain = flavor == 3; if (curtain) flavor = 0;
   TriangleSoupMeshBuilder mb; int w = (int)r.range(1, 8), h = (int)r.range(1, 8);
